@@ -5,7 +5,9 @@ PROP = dict(
                    "walstore run in a testing/synctest bubble (virtual time, deterministic schedule), are stopped at every effect - hard kill "
                    "(crash image), orderly shutdown (context cancelled, Run returns, Close flushes), shutdown while the commit callback holds "
                    "the hand-over, commit-listener failure - restarted on the resulting directory (and stopped again while recovering) and "
-                   "compared with driver-less reference state machines and the harness's own block store"),
+                   "compared with driver-less reference state machines and the harness's own block store; 4 % of the cases are LONG process "
+                   "lives (250-270 heights, thorough also 512-524) that cross the walstore's 256-prune cleanup with the driver in the loop and "
+                   "are stopped around/after the observed cleanup"),
         level_text=("Fault enumeration: for every generated script the uncrashed run's effects (log append, flush, prune, each broadcast, timer "
                     "arming, commit callback) are numbered and the run is repeated and killed before and after EVERY effect (thorough; quick: "
                     "<= 10 drawn points per script: one inside a commit callback when the script commits, four more non-trivial ones). Besides kills "
@@ -27,8 +29,33 @@ PROP = dict(
                     "probe battery like one that processed the same inputs uncrashed; the recovered driver's broadcasts/commits and final state = "
                     "those of a driver-less reference machine; commits consecutive from the resume height and equal to the uncrashed run's; a "
                     "start record carries the started height. The stop space per script is enumerated exhaustively for the first stop; scripts "
-                    "and second stops are sampled, so absence of defects is shown for the enumerated (script, point) pairs only."),
-        rule=("TestPropCrashRecovery: drawn node index, proposer table, per-(height,step,round) timer table (fires 0-3 script positions after "
+                    "and second stops are sampled, so absence of defects is shown for the enumerated (script, point) pairs only. "
+                    "Process-lifetime thresholds: in 4 % of the cases (fair-coin draw) the script is a LONG RUN - one process life that decides "
+                    "250-270 heights (thorough: 30 % of the long runs 512-524 = two cleanups) from a drawn start height, built from cheap filler "
+                    "heights (one round, minimal quorum, no timer fires) whose log entries interleave with early messages of the next height in 3 "
+                    "of 4 heights, plus 1-3 ordinary drawn heights at the end - so the store's amortised cleanup after 256 prune records "
+                    "(prune-watermark write, log rotation, obsolete-file removal driven by the per-file height reference counts) runs under the "
+                    "real driver while flushed entries of the live next height sit in the file being rotated away. The harness watches the "
+                    "directory after every Flush and learns from the changed watermark file when a cleanup ran (nothing is predicted from the "
+                    "constant); 3 stops per long case (thorough 10) are drawn from the height before the cleanup to the end of the life, 60 % in "
+                    "the stretch 'cleanup ran, next prune not durable', of every stop kind, then restart + the same oracles; in a quarter of the "
+                    "long cases the first life is stopped in an early filler height and the RECOVERED process is the one that lives > 256 heights "
+                    "and is stopped around its own cleanup. These stops are sampled (a long life costs ~70 ms), not enumerated."),
+        rule=("TestPropCrashRecovery: 4 % LONG RUNS (label long-run; unif = fair-coin draws because rapid's integer generators favour small "
+              "values): drawn node index, start height 1 (60 %) or 2..50000, total heights 256-270 (12 %: 250-255 control group below the "
+              "threshold, label long-run:below-cleanup-threshold; thorough 30 %: 512-524, label long-run:two-cleanups); the last 1-3 heights come "
+              "from the ordinary per-height generator with drawn proposer/timer tables, all heights before are filler heights (drawn proposer - "
+              "the node itself in ~1 of 5 -, votes of two or three of the others with drawn silent validator and sender rotation, 15 % one local "
+              "swap, no timer fires); in 3 of 4 heights the first 1-5 messages (15 %: the whole first round) of the next height are moved to "
+              "drawn positions among the last 6 messages of the height before (votes for 'what the node proposed' are never moved before the "
+              "node's proposal in filler heights: without timers that would stall the node). Labels long-run:crossed-cleanup (cleanup observed in "
+              "the directory), long-run:cleanup-with-flushed-entries-of-live-height-in-older-file (at that moment the files written before the "
+              "cleanup held flushed entries of a height above the watermark), long-run:cleanup-removed-log-file / cleanup-kept-referenced-log-"
+              "file, long-run:stop-after-cleanup-needs-early-entries-from-older-file (a chosen stop lies after such a cleanup and before the next "
+              "durable prune: the restart must read entries the cleanup had to keep; info.experiments-stop-after-cleanup-... counts experiments), "
+              "long-run:second-life-long / second-life-crossed-cleanup (first life stopped in an early filler height, all not-durable inputs "
+              "re-delivered, the recovered process crosses the cleanup and is stopped around it). Non-trivial additionally = stop-after-log-"
+              "cleanup-before-next-prune, second-stop-around-log-cleanup-of-the-recovered-process. SHORT CASES (96 %, unchanged): drawn node index, proposer table, per-(height,step,round) timer table (fires 0-3 script positions after "
               "arming, or never), script for 1-3 heights of proposals/prevotes/precommits of the 3 other validators (agreeing, nil, split and "
               "polka-without-commit rounds, re-proposals with valid round, invalid values, duplicates, equivocation, overtaking future-round "
               "messages, next-height messages arriving early); application values fresh-per-call (70 %, redirected to reproducible values while "
@@ -57,6 +84,11 @@ PROP = dict(
                      "(the block-sync path needs a real p2p BlockFetcher and is out of scope)",
                      "the observing proxy in front of the state machine forwards every call unchanged; Application.Valid is a pure predicate that survives restarts",
                      "virtual time: a timer fires at the drawn script position; Go-runtime interleavings inside one bubble are those synctest produces",
-                     "at most two stops per experiment"],
+                     "at most two stops per experiment",
+                     "long runs: the stop points of a long life are sampled from its last heights (or, for the long second life, from its first "
+                     "heights), not enumerated; a kill is observed between two store calls, never inside one Flush (torn cleanups - watermark written "
+                     "but log not rotated, rotated but obsolete files not removed - are C14's fault points on the store alone)",
+                     "walstore has no size-triggered log rotation (a log file is rotated only by the 256-prune cleanup or after a failed append), so "
+                     "none is generated; the 512 KiB encoded-batch buffer cap would need ~5000 unflushed entries in one batch and is not reached"],
         runs=[dict(run="^Test(Prop|Known)"), dict(run="^TestRace", race=True, thorough_only=True)],
     )
